@@ -367,9 +367,13 @@ PROPS = {
     'C14': {'legs': [V('market'), V('menv')], 'design': '§5 C14'},
     'C16': {'legs': [V('agents')], 'design': '§5 C16'},
     'C17': {'legs': [], 'design': '§5 C17'},
-    'C18': {'legs': [V('py'), V('book')], 'design': '§5 C18'},
+    'C18': {'legs': [V('py'), V('book'),
+                     {'engine': 'python', 'name': 'cpython_orderbook', 'n': 60, 'bound': '60 seeded random call sequences (5-40 calls: place incl. off-grid and market, cancel, modify, toggles) on bourse.core.OrderBook through the compiled extension module under CPython: ids, documented tuple positions and encodings, ValueError / OverflowError leave the object unchanged, every getter equals the value recomputed from get_orders()'}],
+            'design': '§5 C18'},
     'C20': {'legs': [{'engine': 'derive'}], 'design': '§5 C20'},
-    'C19': {'legs': [V('py'), V('env')], 'design': '§5 C19'},
+    'C19': {'legs': [V('py'), V('env'),
+                     {'engine': 'python', 'name': 'cpython_arrays_and_dictionary', 'n': 40, 'bound': '40 seeded random simulations (3-8 steps, ticks 1/2/5) on StepEnv and StepEnvNumpy through the compiled extension module: both observation arrays, get_prices / get_volumes and EVERY key and series of the market-data dictionary against quantities recomputed from get_orders() / get_trades() after each step'}],
+            'design': '§5 C19'},
 }
 
 
@@ -550,7 +554,49 @@ def run_canaries(leg, pid, log):
     return {'expected_to_fail': len(want), 'failed_as_expected': len(want) - len(vacuous), 'vacuous': vacuous, 'wall_s': res.get('wall_s'), 'cache_hit': res.get('cache_hit')}
 
 
+_ext = None
+
+
+def build_extension():
+    """cargo build -p bourse against REPO's working tree -> path of the extension module (or None)"""
+    global _ext
+    if _ext is not None:
+        return _ext or None
+    td = os.path.join(BUILD, 'pytarget')
+    env = dict(os.environ, CARGO_NET_OFFLINE='true', CARGO_TARGET_DIR=td)
+    p = subprocess.run(['cargo', 'build', '-p', 'bourse', '--offline', '--quiet'], cwd=REPO, capture_output=True, text=True, env=env)
+    so = os.path.join(td, 'debug', 'libbourse.so')
+    _ext = so if (p.returncode == 0 and os.path.exists(so)) else ''
+    if not _ext:
+        print('note: the extension module does not build: %s' % p.stderr[-400:], file=sys.stderr)
+    return _ext or None
+
+
+def run_python_bounded(pid, leg, seed):
+    so = build_extension()
+    if not so:
+        raise Undecided('the PyO3 extension module does not build from this tree (bounded stand-in %s)' % leg['name'])
+    t = time.time()
+    cmd = ['/opt/veriftools/pyvenv/bin/python', os.path.join(HERE, 'py_bounded.py'), so, pid, str(seed), str(leg['n'])]
+    p = subprocess.run(cmd, capture_output=True, text=True)
+    res = {'name': leg['name'], 'bound': leg['bound'], 'cmd': ' '.join(cmd), 'seconds': round(time.time() - t, 1), 'label': 'bounded'}
+    try:
+        res['output'] = json.loads(p.stdout.strip().split('\n')[-1])
+    except Exception:
+        res['output'] = (p.stdout + p.stderr)[-800:]
+    if p.returncode == 0:
+        res['status'] = 'passed'
+    elif p.returncode == 1 and isinstance(res['output'], dict):
+        res['status'] = 'failed'
+        res['witness'] = res['output']
+    else:
+        raise Undecided('python bounded stand-in %s could not run: %s' % (leg['name'], (p.stdout + p.stderr)[-400:]))
+    return res
+
+
 def run_bounded(pid, leg, seed):
+    if leg.get('engine') == 'python':
+        return run_python_bounded(pid, leg, seed)
     b = build_replay()
     if not b:
         raise Undecided('the replay runner does not build against this tree (bounded stand-in %s)' % leg['name'])
@@ -612,7 +658,7 @@ def main():
     try:
         legs = []
         for leg in cfg['legs']:
-            if leg['engine'] == 'replay':
+            if leg['engine'] in ('replay', 'python'):
                 bounded.append(run_bounded(pid, leg, seed))
                 continue
             if leg['engine'] == 'derive':
@@ -669,6 +715,13 @@ def main():
     if new:
         path = write_replay(pid, new, legs)
         wit = witness_search(pid, new, a.tier, seed, path)
+        if not wit and bad_bounded and bad_bounded[0].get('witness'):
+            # a bounded stand-in of the same property executed the real code and failed: its input is the failing input
+            doc = json.load(open(path))
+            doc['witness'] = bad_bounded[0]['witness']
+            doc['note'] += '; witness = the failing case of the bounded stand-in %s (an execution of the real code)' % bad_bounded[0]['name']
+            json.dump(doc, open(path, 'w'), indent=1)
+            wit = doc['witness']
         lost = [i['lost_hints'] for i in legs if i.get('lost_hints') and any(f in i['refuted'] for f in new)]
         if lost and not wit:
             print('UNDECIDED property=%s: %s; no failing input was found on the real code either' % (pid, lost[0]))
